@@ -33,6 +33,7 @@ var impls = map[string]func(string) string{
 	"http.index":      implHTTP,
 	"sparse.ops":      implSparseOps,
 	"sparse.accept":   implSparseAccept,
+	"mh.accept":       implMhAccept,
 	"verify.index":    implVerifyIndex,
 	"arch.untar":      implUntar,
 	"arch.tar":        implTar,
